@@ -116,3 +116,10 @@ Example C17_run_nonvacuous :
   snd (poll_op (start_run (begin_ev (mk 5000))) 0) = [ODone 0 RErrExited] /\
   snd (poll_op (start_run (begin_ev (mk 5000))) 1) = [ODone 1 RErrExited].
 Proof. vm_compute. auto. Qed.
+
+(* the retransmit queue after a whole poll of the Context task of the script layer: the unfinished handshakes of the
+   history the run loop took (TraceP.trace) *)
+Theorem C17_queue_after_poll : forall s : sys, cph s = CRunning -> hold s = false -> ctx_alive s = true -> wbudget s = None ->
+  retx (c (settle s)) = unfinished s (retx (c s)) (trace (settle_fuel s) s).
+Proof. exact retx_after_poll. Qed.
+Print Assumptions C17_queue_after_poll.
